@@ -11,6 +11,7 @@ element-only content, tail text, duplicated last child, swapped children, invali
 the parser raises, or every element, attribute and non-whitespace text of the input occurs in the output."""
 import os
 import copy
+import zlib
 import collections
 import xml.etree.ElementTree as ET
 from xml.sax.saxutils import escape, quoteattr
@@ -65,6 +66,9 @@ def documents(name, tier):
             v = V.sample_value(at)
             yield 'attr:' + an, with_attrs(reqd + [(an, v)])
             allc.append((an, v))
+            if docs.type_roots(at) and docs.type_roots(at) <= {'xs:string', 'xs:token'} and not (
+                    at in R.STYPES and (R.st_facets(at)['enum'] or R.st_facets(at)['pattern'] or R.st_facets(at)['min_len'])):
+                yield 'attrempty:' + an, with_attrs(reqd + [(an, '')])
             if docs.type_roots(at) & docs.NUMERIC_ROOTS and not (docs.type_roots(at) - docs.NUMERIC_ROOTS):
                 yield 'attrnum:' + an, with_attrs(reqd + [(an, v + '.0' if '.' not in v and docs.type_roots(at) & {'xs:decimal'} else '0' + v)])
         if len(allc) > len(reqd) + 1:
@@ -146,7 +150,7 @@ def gen(names_tier):
         for did, text in documents(name, tier):
             out.append((name, did, text))
             n += 1
-            if n % 7 == 0:
+            if zlib.crc32((name + '|' + did).encode('utf-8')) % 7 == 0:   # stable choice, independent of generation order
                 try:
                     out.append((name, did + '|pretty', pretty(text)))
                 except ET.ParseError:
